@@ -29,7 +29,11 @@ EXPLANATION = (
     "expression that measures the time since the start of yield formation has the normal form dap - delayed_cds - "
     "HIstartCD - 1 (over canonical state / crop atoms), so that the HIt > 0 guards of the callers protect the divisions "
     "by that quantity in the callees. C16.f: no in-place store targets the SoilProfile arrays (they are read-only views of a "
-    "pandas frame: ValueError). NOT decided: numeric assert "
+    "pandas frame: ValueError). C16.g: X.iloc[e] with a computed index is bounded by the length of what it indexes (range(len(.)) loop "
+    "variable, a counter running down from len(.)-1 under >= 0, or a guard comparing the index with a length). C16.h: constant propagation "
+    "of the step for water_table in {0,1}: no cell of the daily tables receives the constant None (stored as NaN). C16.i: month and day of "
+    "a real date are completed to a date only with a leap mock year (own positive example). C16.j: the profile-deepening while loop makes "
+    "progress on every iteration (every path from the body's entry back to the test stores into the thickness column). NOT decided: numeric assert "
     "failures, non-finite results from run-time values, pandas-internal errors.")
 
 L = frozenset
